@@ -15,8 +15,11 @@
     literals of writer.go.
 -/
 import Gozod.Model.GenTyped
+import Gozod.Model.GenSem
 import Gozod.Gen.MethodTable
 import Gozod.Gen.WriterFacts
+import Gozod.Gen.KindRows
+import Gozod.Gen.GenTable
 namespace Gozod.C13
 open Gozod.GenEmit Gozod.GenTyped Gozod.TagParser
 
@@ -239,12 +242,22 @@ def classOfCtor (b : Basic) : CExpr → KindClass
   | .enum _ => .enum
   | _ => .none
 
-/-- the writer of the tree under check (regenerated structure facts) and the library's method table -/
-def WF := Gozod.Gen.writerFacts
+/-- the writer of /repo HEAD — PINNED (round 4c) — and the library's method table (regenerated) -/
+def WF : WriterFacts := .head
 def T := Gozod.Gen.methodTable
 
-/-- the region: the tag is accepted, and every emitted call has one of the shapes of its schema class
-    (decidable from the tag; `enum` with no member is outside) -/
+/-- **The tree's writer IS the pinned one**: each of the 12 + 3 structure facts harness/cmd/c13/facts.go reads off
+    cmd/gozodgen/writer.go and analyzer.go with go/ast (`Gen/WriterFacts.lean`, regenerated) shows the variant that landed.
+    A tree in which a legacy variant reappears breaks this obligation (and the `texpr` / `cell` ops then show the concrete
+    struct on which the pinned model and the tree disagree) — it is not followed. -/
+theorem c13_writer_pinned :
+    Gozod.Gen.writerFacts = WriterFacts.head ∧ Gozod.Gen.analyzerMultiName = true ∧
+    Gozod.Gen.analyzerTagLiteral = true ∧ Gozod.Gen.analyzerSkipTestFiles = true := by decide
+
+/-- the region of the LIFTING lemma `c13_welltyped_partial`: the tag is accepted, and every emitted call has one of the
+    shapes of its schema class (`enum` with no member is outside). NB this is a condition on what `emitChain` produced for
+    the tag, not on the tag — the statements whose scope is defined on the INPUT (field kind × tag) are the table theorems
+    `c13_rows_*` (regenerated `Gen.kindRowsSrc`) and `c13_matrix_welltyped` (every matrix cell). -/
 def typedRegion (t : Ty) (sn : Str) (rs : List Rule) : Bool :=
   match scalarOf t, emitChain WF t sn rs with
   | some b, some c =>
@@ -343,7 +356,7 @@ theorem emitChain_ctor (W : WriterFacts) (t : Ty) (sn : Str) (rs : List Rule) (c
 
 /-- **Every emitted expression of the region type-checks against the whole regenerated method table** —
     all scalar field types, all struct names, all rule lists (any length, any order, any parameters of the shapes). -/
-theorem c13_welltyped_partial (t : Ty) (sn : Str) (rs : List Rule) (c : Chain)
+theorem c13_welltyped_expr (t : Ty) (sn : Str) (rs : List Rule) (c : Chain)
     (hr : typedRegion t sn rs = true) (he : emitChain WF t sn rs = some c) : wellTyped T false c = some true := by
   unfold typedRegion at hr
   cases hb : scalarOf t with
@@ -376,6 +389,24 @@ theorem c13_welltyped_partial (t : Ty) (sn : Str) (rs : List Rule) (c : Chain)
         exact h
       exact wellTyped_of_startOK false c .enum (by rw [hct]; exact hst) hall
 
+/-- the judgement on the FILE written for a one-field struct — what the driver's `statusOf` computes and the `texpr` op
+    compares with `go build`: the expression is well typed AND every import written is used -/
+def fileOK (rs : List Rule) (c : Chain) : Option Bool :=
+  let ti := timeImported WF [rs] [c]
+  match wellTyped T ti c with
+  | some true => some (importsUsed WF [rs] [c])
+  | some false => some false
+  | none => if importsUsed WF [rs] [c] then none else some false
+
+/-- **In the region the generated file type-checks exactly when its imports are used** (round 4c: the conclusion is the
+    file-level judgement, imports included — `typedRegion (.basic .string) "C" [regex]` holds, `importsUsed` fails, and the
+    file indeed does not compile: `c13_unused_import_witnesses`). -/
+theorem c13_welltyped_partial (t : Ty) (sn : Str) (rs : List Rule) (c : Chain)
+    (hr : typedRegion t sn rs = true) (he : emitChain WF t sn rs = some c) (hti : timeImported WF [rs] [c] = false) :
+    fileOK rs c = some (importsUsed WF [rs] [c]) := by
+  have h := c13_welltyped_expr t sn rs c hr he
+  simp [fileOK, hti, h]
+
 /-! ## every kind of field type: the rows of the kind × tag table, judged against the whole regenerated method table -/
 
 def rule (n : String) (ps : List String := []) : Rule := ⟨asc n, if ps.isEmpty then none else some (ps.map asc)⟩
@@ -394,41 +425,27 @@ def whyAgrees (W : WriterFacts) (t : Ty) (sn : String) (rs : List Rule) : Bool :
     | .unjudged, none => true
     | _, _ => false
 
+/-- the judgement, with its reason, on the file written for a matrix cell -/
+def whyChainOf (t : Gozod.Tags.FTy) (rules : List Gozod.Tags.TRule) : Why :=
+  why T WF (GenSem.tyOf t) "" (rules.map GenSem.ruleOf)
+
 def self : Ty := .named (asc "S")
 def inner : Ty := .named (asc "Inner")
 
-/-- the tags of harness/cmd/c13/wide.go `kindTags`, per class of field type -/
-def numTags : List (List Rule) :=
-  [[], [rule "required"], [rule "min" ["1"]], [rule "max" ["100"]], [rule "gt" ["0"], rule "lte" ["9"]], [rule "default" ["3"]],
-   [rule "min" ["1"], rule "max" ["5"], rule "required"], [rule "gte" ["2.5"]], [rule "max" ["300"]], [rule "min" ["-1"]],
-   [rule "max" ["4294967296"]], [rule "max" ["9223372036854775808"]], [rule "lt" ["1.0"]], [rule "positive"], [rule "length" ["2"]]]
-def boolTags : List (List Rule) := [[], [rule "required"], [rule "default" ["true"]], [rule "prefault" ["false"]], [rule "min" ["1"]]]
-def otherTags : List (List Rule) :=
-  [[], [rule "required"], [rule "min" ["1"]], [rule "max" ["3"]], [rule "required", rule "min" ["1"]], [rule "nilable"], [rule "length" ["2"]], [rule "nonempty"]]
-def strTags : List (List Rule) :=
-  [[], [rule "nilable", rule "min" ["1"]], [rule "prefault" ["x"]], [rule "min" ["1.5"]], [rule "gt" ["1"]], [rule "uuid", rule "email"],
-   [rule "enum" ["a", "b"], rule "required"], [rule "enum" ["a"]], [rule "regex" ["^a$"], rule "uuid"], [rule "default" ["a", "b", "c"]],
-   [rule "email", rule "email"], [rule "url"], [rule "url", rule "min" ["3"]], [rule "enum" ["a", "b"], rule "min" ["2"]], [rule "length" ["3"]],
-   [rule "nonempty"], [rule "uuid", rule "url"]]
+/-- one row of the regenerated table, read with the transcriptions themselves: the type by `parseTy`, the tag by gozodgen's
+    own tag parser `genParseTag` -/
+def rowOf (r : String × String) : Option (Ty × List Rule) :=
+  match parseTy r.1, GenSplit.genParseTag (asc r.2) with
+  | some t, .ok rs => some (t, rs)
+  | _, _ => none
 
-def numKinds : List Ty :=
-  [.basic .int8, .basic .int16, .basic .int32, .basic .uint, .basic .uint8, .basic .uint16, .basic .uint32, .basic .uint64, .basic .float32,
-   .ptr (.basic .float32), .ptr (.basic .int8), .ptr (.basic .uint64), .basic .int, .basic .float64, .ptr (.basic .int64)]
-def boolKinds : List Ty := [.basic .bool, .ptr (.basic .bool)]
-def strKinds : List Ty := [.basic .string, .ptr (.basic .string)]
-def otherKinds : List Ty :=
-  [.basic .complex128, .time, .ptr .time, .slice .time, inner, .ptr inner, .slice inner, .slice (.ptr inner),
-   .map (.basic .string) inner, .map (.basic .string) (.ptr inner), .slice (.basic .string), .slice (.ptr (.basic .string)),
-   .slice (.slice (.basic .int)), .ptr (.slice (.basic .int)), .ptr (.slice (.ptr inner)), .map (.basic .string) (.basic .int),
-   .map (.basic .string) (.slice (.basic .int)), .map (.basic .string) (.map (.basic .string) (.basic .bool)),
-   .ptr (.map (.basic .string) (.basic .string)), .map (.basic .int) (.basic .string), .ptr (.ptr (.basic .int)),
-   .map (.basic .string) (.ptr .time), .map (.basic .string) (.ptr (.basic .string)), .map (.basic .string) (.ptr (.slice (.basic .int))),
-   .ptr self, .slice self, .slice (.ptr self), .map (.basic .string) self, .map (.basic .string) (.ptr self), .slice (.slice (.ptr self)), .ptr (.slice self)]
+/-- THE ROWS: every kind of field type the writer distinguishes × the tags of its class (struct name `S`) — REGENERATED from
+    harness/cmd/c13/wide.go (`kinds` × `kindTags`) on every run (`Gen/KindRows.lean`); round 4c: no hand copy -/
+def kindRows : List (Ty × List Rule) := Gozod.Gen.kindRowsSrc.filterMap rowOf
 
-/-- THE ROWS: every kind of field type the writer distinguishes × the tags of its class (struct name `S`) -/
-def kindRows : List (Ty × List Rule) :=
-  numKinds.flatMap (fun t => numTags.map (t, ·)) ++ boolKinds.flatMap (fun t => boolTags.map (t, ·)) ++
-  strKinds.flatMap (fun t => strTags.map (t, ·)) ++ otherKinds.flatMap (fun t => otherTags.map (t, ·))
+/-- every row of the source table is read (none is silently dropped), and the table is not empty -/
+theorem c13_kind_rows_read : kindRows.length = Gozod.Gen.kindRowsSrc.length ∧ 600 ≤ kindRows.length := by
+  constructor <;> decide +kernel
 
 def dedup : List String → List String
   | [] => []
@@ -453,9 +470,21 @@ theorem mem_dedup : ∀ (l : List String) (x : String), x ∈ l → x ∈ dedup 
 def illClasses (W : WriterFacts) : List String :=
   dedup (kindRows.filterMap fun r => match why T W r.1 "S" r.2 with | .ill c => some c | _ => none)
 
-/-- every row is judged, and the reason given agrees with `wellTyped` ∧ `importsUsed` -/
+/-- rows whose emitted argument is not a classified literal — a class of INPUTS: a `default=` / `prefault=` on a slice or
+    map field (the argument is a composite literal `[]T{…}` or the parameter verbatim), and a float field with a bound whose
+    parameter is not a canonical decimal (`lte=+7`, `min=007`: written verbatim). The typing judgement does not judge them
+    (`why = .unjudged`); their files are judged by `go build` in the run only. -/
+def compositeDefault (t : Ty) (rs : List Rule) : Bool :=
+  (rs.any fun r => r.name = asc "default" ∨ r.name = asc "prefault") && (match t.deref with | .slice _ | .map _ _ => true | _ => false)
+def boundNames : List Str := ["min", "max", "gt", "gte", "lt", "lte"].map asc
+def nonCanonicalFloatBound (t : Ty) (rs : List Rule) : Bool :=
+  t.deref.floaty && rs.any fun r => boundNames.contains r.name && (match r.params with | some (p :: _) => classifyRaw p == .other | _ => false)
+def unjudgedRow (r : Ty × List Rule) : Bool := compositeDefault r.1 r.2 || nonCanonicalFloatBound r.1 r.2
+
+/-- every row outside `unjudgedRow` is judged — and exactly those (the class is exact) — and the reason given agrees with
+    `wellTyped` ∧ `importsUsed` -/
 theorem c13_rows_judged :
-    (kindRows.all fun r => why T WF r.1 "S" r.2 != .unjudged && whyAgrees WF r.1 "S" r.2) = true := by decide +kernel
+    (kindRows.all fun r => (why T WF r.1 "S" r.2 == .unjudged) == unjudgedRow r && whyAgrees WF r.1 "S" r.2) = true := by decide +kernel
 
 /-- **The rows that do not type-check are listed `open:` classes** (`Gen.openCompileClasses`, regenerated from
     known-findings.txt): over every kind of field type × tag of its class, against the whole regenerated method table and
@@ -465,17 +494,17 @@ theorem c13_illtyped_rows_are_open :
     (illClasses WF).all (fun c => Gozod.Gen.openCompileClasses.contains c) = true := by decide +kernel
 
 /-- Full statement over the rows: every generated file type-checks. -/
-def c13_rows_full : Prop := ∀ r ∈ kindRows, why T WF r.1 "S" r.2 = .ok
+def c13_rows_full : Prop := ∀ r ∈ kindRows, unjudgedRow r = false → why T WF r.1 "S" r.2 = .ok
 
-/-- … outside the listed classes (what `c13_illtyped_rows_are_open` says, row by row) -/
-theorem c13_rows_partial : ∀ r ∈ kindRows, (∀ c ∈ Gozod.Gen.openCompileClasses, why T WF r.1 "S" r.2 ≠ .ill c) → why T WF r.1 "S" r.2 = .ok := by
-  intro r hr hno
+/-- … outside the listed classes and the unjudged inputs (what `c13_illtyped_rows_are_open` says, row by row) -/
+theorem c13_rows_partial : ∀ r ∈ kindRows, unjudgedRow r = false → (∀ c ∈ Gozod.Gen.openCompileClasses, why T WF r.1 "S" r.2 ≠ .ill c) → why T WF r.1 "S" r.2 = .ok := by
+  intro r hr hu hno
   have hj := List.all_eq_true.mp c13_rows_judged r hr
-  simp only [Bool.and_eq_true, bne_iff_ne, ne_eq] at hj
+  simp only [Bool.and_eq_true, beq_iff_eq, hu] at hj
   have ho := c13_illtyped_rows_are_open
   cases hw : why T WF r.1 "S" r.2 with
   | ok => rfl
-  | unjudged => exact absurd hw hj.1
+  | unjudged => rw [hw] at hj; simp at hj
   | ill c =>
     exfalso
     have hmem : c ∈ illClasses WF := by
@@ -485,6 +514,17 @@ theorem c13_rows_partial : ∀ r ∈ kindRows, (∀ c ∈ Gozod.Gen.openCompileC
       exact mem_dedup _ _ this
     have := List.all_eq_true.mp ho c hmem
     exact hno c (by simpa using this) hw
+
+/-! ## every matrix cell: the model's judgement on the file, from the cell's input -/
+
+/-- **The typing judgement says `ok` for every cell of the rule matrix** (2 036 cells: field type × rules, from the INPUT,
+    through `emitChain .head`, against the whole regenerated method table, imports included) — and `go build` says the
+    same on every one of them (`c13_typechecks`; compared cell by cell by the `texpr` op). -/
+theorem c13_matrix_welltyped :
+    ∀ b ∈ Gozod.Gen.genTable, ∀ c ∈ b.cells, whyChainOf b.fty c.rules = .ok := by
+  have h : Gozod.Gen.genTable.all (fun b => b.cells.all fun c => decide (whyChainOf b.fty c.rules = .ok)) = true := by decide +kernel
+  intro b hb c hc
+  simpa using List.all_eq_true.mp (List.all_eq_true.mp h b hb) c hc
 
 /-! ## witnesses: the writer of round 4 (`WriterFacts.legacy`), and what is left in the tree under check -/
 
@@ -513,7 +553,7 @@ theorem c13_illtyped_witnesses :
     the text), and it does not type-check: `*ZodStruct[C, C]` is no `ZodType[any]` -/
 theorem c13_lazy_self_reference_pinned :
     wt WF (.ptr (.named (asc "C"))) "C" [rule "required"] = some false ∧ wt WF (.slice (.ptr (.named (asc "C")))) "C" [] = some false ∧
-    wt .repaired (.ptr (.named (asc "C"))) "C" [rule "required"] = some false := by
+    wt .head (.slice (.named (asc "C"))) "C" [] = some false := by
   decide +kernel
 
 /-- `.IPv4()` / `.IPv6()` (rules outside docs/tags.md, cases of generateValidatorChain): no such method on ZodString, in every known writer -/
